@@ -10,7 +10,7 @@ from ..axes import declared_axes, reversal_position
 from . import common
 from .. import alg as _alg
 from ..alg import sym as _sym
-from ..interp import Interp as _Interp, Hooks as _Hooks, Obj as _Obj, symarr as _symarr, unit_atom as _unit_atom
+from ..interp import Interp as _Interp, Hooks as _Hooks, Obj as _Obj, symarr as _symarr, unit_atom as _unit_atom, scalar as _scalar
 from ..fitmodel import compare as _compare, loc as _loc
 
 EXPLANATION = (
@@ -169,6 +169,32 @@ def check_axis_pair(ctx):
                          findings=I.findings, detail_ok='describes B, the axis assigned last')
 
 
+def check_get_sed(ctx):
+    """SEDCube.get_sed interpreted on a symbolic cube: the SED returned for a name is the slice of val / unc at the first position where the cube's names
+    equal that name - on the *full* model axis, the one the fitter indexes - with name, distance, both spectral axes and the apertures carried over."""
+    repo = ctx.repo
+    gs = ctx.fn(repo.func('sed.cube', 'SEDCube.get_sed'))
+    M, A, N = 'm', 'a', 'n'
+    I = _Interp(repo, _AxisHooks())
+    o = _Obj(repo.cls('sed.cube', 'SEDCube'), {'_names': _symarr('cnames', (M,)), '_val': _symarr('cubeval', (M, A, N), unit=_unit_atom('mJy')), '_unc': _symarr('cubeunc', (M, A, N), unit=_unit_atom('mJy')),
+                                               '_wav': _symarr('cwav', (N,), unit=_unit_atom('micron')), '_nu': None, '_apertures': _symarr('cap', (A,), unit=_unit_atom('au')),
+                                               '_distance': _scalar(_sym('dist'), _unit_atom('kpc')), '_valid': _symarr('cvalid', (M,))})
+    out = I.call(gs, [_scalar(_sym('qname'))], selfv=o)
+    where_ = _loc(gs)
+    vocab = {'cnames', 'cubeval', 'cubeunc', 'cwav', 'cap', 'dist', 'qname', 'cvalid'}
+    fns = {'first', 'spectral'}
+    if not isinstance(out, _Obj):
+        _compare(ctx, 'AXIS', 'get_sed model index', where_, out, _alg.Poly(), findings=I.findings)
+        return
+    pos = _alg.mk_fn('first', _alg.B(M, _alg.eq(_sym('cnames', M), _sym('qname'))))
+    get = lambda k: I.getattr(out, k, None, gs.module)
+    for tgt, src in (('flux', 'cubeval'), ('error', 'cubeunc')):
+        _compare(ctx, 'AXIS', 'get_sed %s' % tgt, where_, get(tgt), _alg.mk_fn('at', _alg.B(M, _sym(src, M, A, N)), _alg.P(pos)), (A, N), vocab=vocab, fns=fns, findings=I.findings,
+                 detail_ok='sed.%s == %s[first m with names[m] == model_name, :, :]' % (tgt, 'val' if tgt == 'flux' else 'unc'))
+    for tgt, ref, dims in (('name', _sym('qname'), ()), ('distance', _sym('dist'), ()), ('wav', _sym('cwav', N), (N,)), ('nu', _alg.mk_fn('spectral', _alg.P(_sym('cwav', N))), (N,)), ('apertures', _sym('cap', A), (A,))):
+        _compare(ctx, 'AXIS', 'get_sed carries %s over' % tgt, where_, get(tgt), ref, dims, vocab=vocab, fns=fns, detail_ok='copied from the cube')
+
+
 def run(ctx):
     repo = ctx.repo
     # ---- writer / reader agreement
@@ -219,25 +245,7 @@ def run(ctx):
     n = check_none_guards(ctx, ctx.fn(cr), Rc.obj, 'unc')
     gs = ctx.fn(repo.func('sed.cube', 'SEDCube.get_sed'))
     n += check_none_guards(ctx, gs, gs.params[0], 'unc')
-    # ---- AXIS get_sed
-    me = gs.params[0]
-    idx_def = [(t, v) for t, v, st in stores(gs.node) if isinstance(t, ast.Name) and 'nonzero' in up(v)]
-    ok_idx = bool(idx_def) and ('%s.names == ' % me) in up(idx_def[0][1])
-    ctx.expect(ok_idx, 'AXIS', 'get_sed model index', where(gs), 'index found from self.names == model_name', 'index is %s' % (up(idx_def[0][1]) if idx_def else None), 'get-sed-index')
-    iname = idx_def[0][0].id if idx_def else None
-    carried = {}
-    for t, v, st in stores(gs.node):
-        if isinstance(t, ast.Attribute) and isinstance(t.value, ast.Name) and t.value.id != me:
-            carried[t.attr] = v
-    for tgt, srcattr in (('flux', 'val'), ('error', 'unc')):
-        v = carried.get(tgt)
-        good = isinstance(v, ast.Subscript) and up(v.value) == '%s.%s' % (me, srcattr) and isinstance(v.slice, ast.Tuple) and len(v.slice.elts) == 3 \
-            and isinstance(v.slice.elts[0], ast.Name) and v.slice.elts[0].id == iname and cube_axes[srcattr][0] == 'n_models' \
-            and all(isinstance(x, ast.Slice) and x.lower is None and x.upper is None and x.step is None for x in v.slice.elts[1:])
-        ctx.expect(bool(good), 'AXIS', 'get_sed %s' % tgt, where(gs, v), 'sed.%s = self.%s[index, :, :] on the model axis' % (tgt, srcattr), 'sed.%s = %s' % (tgt, up(v) if v is not None else None), 'get-sed-' + tgt)
-    want = {'name': 'model_name', 'distance': '%s.distance' % me, 'wav': '%s.wav' % me, 'nu': '%s.nu' % me, 'apertures': '%s.apertures' % me}
-    bad = {k: (up(carried[k]) if k in carried else None) for k, v in want.items() if k not in carried or up(carried[k]) != v}
-    ctx.expect(not bad, 'AXIS', 'get_sed carries metadata over', where(gs), 'name, distance, wav, nu, apertures copied', 'not carried over: %s' % bad, 'get-sed-meta')
+    check_get_sed(ctx)
 
 
 SE = 'sedfitter/sed/sed.py'
@@ -245,6 +253,8 @@ CU = 'sedfitter/sed/cube.py'
 CF = 'sedfitter/convolved_fluxes/convolved_fluxes.py'
 HE = 'sedfitter/sed/helpers.py'
 MUST_FIRE = [
+    ('get_sed looks the name up among the valid models only, then indexes the full arrays', [(CU, "sed_index = np.nonzero(self.names == model_name)[0][0]", "sed_index = np.nonzero(self.names[self.valid.astype(bool)] == model_name)[0][0]")]),
+    ('get_sed takes the last match', [(CU, "sed_index = np.nonzero(self.names == model_name)[0][0]", "sed_index = np.nonzero(self.names == model_name)[0][-1]")]),
     ('cube nu getter keeps the derived axis', [(CU, "            return self._wav.to(u.Hz, equivalencies=u.spectral())\n        else:\n            return self._nu", "            self._nu = self._wav.to(u.Hz, equivalencies=u.spectral())\n        return self._nu")]),
     ('cube wav setter leaves the old nu in place', [(CU, "            self._nu = None\n            self._wav = validate_array('wav'", "            self._wav = validate_array('wav'")]),
     ('SED reversal omits error', [(SE, "            sed.error = sed.error[..., ::-1]\n", "")]),
@@ -270,6 +280,7 @@ MUST_FIRE = [
     ('get_sed indexes the aperture axis', [(CU, "sed.flux = self.val[sed_index, :,:]", "sed.flux = self.val[:, sed_index, :]")]),
 ]
 MUST_SILENT = [
+    ('get_sed index through np.where and a temporary', [(CU, "sed_index = np.nonzero(self.names == model_name)[0][0]", "matches = np.where(self.names == model_name)[0]\n            sed_index = matches[0]")]),
     ('cube wav setter validates first, then drops nu', [(CU, "            self._nu = None\n            self._wav = validate_array('wav', value, domain='positive', ndim=1,\n                                       shape=None if self.nu is None else (len(self.nu),),\n                                       physical_type='length')",
                                                              "            value = validate_array('wav', value, domain='positive', ndim=1,\n                                   shape=None if self.nu is None else (len(self.nu),),\n                                   physical_type='length')\n            self._nu = None\n            self._wav = value")]),
     ('explicit last-axis slice', [(SE, "sed.flux = sed.flux[..., ::-1]", "sed.flux = sed.flux[:, ::-1]")]),
